@@ -332,6 +332,151 @@ def nested_walks(tier, rng):
                         yield sx([10, 9, [4, [9, bad, pos, 7, kind], [[0, 9]]]])
 
 
+def _mat_sources():
+    """(9 3) matrix source terms whose view is empty (0xN, Nx0, 0x0, clipped to nothing) or degenerate
+    (1x1, a single row / column), plain, reversed and as a range of a range"""
+    out = []
+    for rows, cols in ((1, 1), (1, 3), (3, 1), (2, 2), (2, 3)):
+        base = [0, rows, cols, [10 * r + c + 1 for r in range(rows) for c in range(cols)]]
+        out.append(base)
+        rrs = [(0, 0), (0, rows), (rows - 1, 1), (rows, 1), (rows + 3, 2)]
+        crs = [(0, 0), (0, cols), (cols - 1, 1), (cols, 1), (1, 0)]
+        for rr in dict.fromkeys(rrs):
+            for cr in dict.fromkeys(crs):
+                rg = [1, base, list(rr), list(cr)]
+                out.append(rg)
+                if rr[1] == 0 or cr[1] == 0 or rr[0] >= rows:
+                    out.append([2, rg, 1, 0])
+                    out.append([1, rg, [0, 1], [0, 1]])
+                    out.append([1, [2, base, 0, 1], list(rr), list(cr)])
+    return out
+
+
+def _leaves():
+    """(rows, cols, data, leaf) of the (9 6) language: every part of partitions whose boundaries sit at
+    0 / at the end / repeat (0xN, Nx0 and 0x0 parts), every quadrant of degenerate quadrant splits"""
+    out = []
+    for rows, cols in ((1, 1), (2, 2), (2, 3)):
+        data = [10 * r + c + 1 for r in range(rows) for c in range(cols)]
+        out.append((rows, cols, data, [0]))
+        rps = [[], [0], [rows], [1], [0, rows]]
+        cps = [[], [0], [cols], [1], [0, 0]]
+        for rp in rps:
+            for cp in cps:
+                if (not rp and not cp) or len(rp) + len(cp) > 3:
+                    continue
+                for j in range((len(rp) + 1) * (len(cp) + 1)):
+                    out.append((rows, cols, data, [1, rp, cp, j]))
+        for r in sorted({0, rows, rows + 1}):
+            for c in sorted({0, 1, cols}):
+                for j in range(4):
+                    out.append((rows, cols, data, [2, r, c, j]))
+    return out
+
+
+def _iter_combos():
+    """(order, mode, wi, args) of every matrix iterator type"""
+    for order in (0, 1):
+        for mode in (0, 1, 2):
+            for arg in (0, 1):
+                yield order, mode, 0, arg
+    for mode in (0, 1, 2):
+        yield 4, mode, 0, 0
+    for order in (2, 3):
+        for mode in (0, 1, 2, 3):
+            for wi in (0, 1):
+                yield order, mode, wi, 0
+
+
+def _tensor_sources():
+    """(9 2) tensor source terms: one-element tensors in every dimensionality, single rows / columns,
+    ranges / masks down to one element and ones whose constructor must fail (nothing left)"""
+    out = []
+    for lens in ([], [1], [3], [1, 1], [1, 3], [3, 1], [2, 1, 2], [1, 1, 1, 1], [1, 2, 1, 1, 1], [1, 1, 1, 1, 1, 2]):
+        D = len(lens)
+        n = 1
+        for x in lens:
+            n *= x
+        shape = [[d, lens[d]] for d in range(D)]
+        base = [0, shape, [7 + 3 * i for i in range(n)]]
+        out.append(base)
+        if D == 0:
+            continue
+        out.append([1, base, list(range(D))])
+        out.append([2, base, [[0, 1]] * D])                        # one element
+        out.append([2, base, [[lens[d] - 1, 5] for d in range(D)]])  # the last one, clipped
+        out.append([2, base, [[0, 0]] + [[0, 1]] * (D - 1)])        # nothing left: refused
+        out.append([2, base, [[0, 1]] * (D - 1) + [[lens[-1], 1]]])  # starts past the end: refused
+        out.append([5, base, [[0, 0]] * D])                        # masks nothing
+        out.append([5, base, [[0, lens[d] - 1] for d in range(D)]])  # masks all but the last
+        out.append([5, base, [[0, lens[d]] for d in range(D)]])      # masks everything: refused
+        out.append([3, base, list(reversed(range(D)))])
+        out.append([4, base, list(reversed(range(D)))])
+        out.append([2, [1, base, [0]], [[0, 1]] * D])
+    return out
+
+
+def iterator_ctor_cases(tier, rng):
+    """wave 4: every public iterator constructor over empty and degenerate sources, walked to
+    exhaustion + 3 calls ((10 10 ..) = C09's language), and the record containers built on the owning
+    iterators ((10 11 ..), (10 12 ..)).  Deterministic (no draw from rng)."""
+    from tools.vlib import sx
+    combos = list(_iter_combos())
+    for src in _mat_sources():
+        for order, mode, wi, arg in combos:
+            yield sx([10, 10, 3, order, mode, wi, src, arg, 9])
+        # the provided methods a type may override, on the first call
+        for order in (2, 3):
+            for mode in (0, 3):
+                yield sx([10, 10, 7, [[0, 0], [0, 0]], 3, order, mode, 0, src, 0, 0])
+                yield sx([10, 10, 7, [[3, 2], [1, 0]], 3, order, mode, 1, src, 0, 0])
+    wrappers = ([], [[2, 1, 1]], [[0, 0, 0, 0, 0]], [[1, 0, 1, 0, 1]])
+    for i, (rows, cols, data, leaf) in enumerate(_leaves()):
+        # partitions the crate rejects (a repeated boundary, a quadrant split outside the matrix):
+        # one iterator and one record constructor each (the rejection itself is C12's business)
+        if (leaf[0] == 1 and (len(set(leaf[1])) < len(leaf[1]) or len(set(leaf[2])) < len(leaf[2]))) \
+                or (leaf[0] == 2 and (leaf[1] > rows or leaf[2] > cols)):
+            if leaf[3] == 0:
+                yield sx([10, 10, 6, 3, 3, 0, rows, cols, data, leaf, [], 0, 3])
+                yield sx([10, 11, 0, rows, cols, data, leaf, [], [0, 9, 0, 9]])
+            continue
+        for j, ws in enumerate(wrappers):
+            if j >= 2 and (i + j) % 3:
+                continue
+            for order, mode, wi, arg in combos:
+                if leaf != [0] and mode in (0, 1) and wi == 0 and order in (2, 3) and j:
+                    continue
+                yield sx([10, 10, 6, order, mode, wi, rows, cols, data, leaf, ws, arg, rows * cols + 3])
+            for variables in (0, 1):
+                for sub in ((0, 9, 0, 9), (0, 0, 0, 1), (0, 1, 1, 0), (rows, 1, 0, 1), (0, 1, 0, 1))[:5 if j < 2 else 2]:
+                    yield sx([10, 11, variables, rows, cols, data, leaf, ws, list(sub)])
+    for rows, cols, data, leaf in _leaves()[:1] + [(2, 3, [1, 2, 3, 4, 5, 6], [0])]:
+        for ws in ([[0, 0, 0, 0, 3]], [[0, 0, 2, 3, 1]], [[0, 5, 2, 0, 1]], [[1, 1, 1, 0, 3]], [[0, 0, 1, 0, 1]],
+                   [[0, 0, 0, 0, 0]], [[0, 0, 1, 0, 1], [0, 1, 1, 0, 1]], [[2, 1, 1], [0, 0, 9, 1, 0]]):
+            for variables in (0, 1):
+                yield sx([10, 11, variables, rows, cols, data, leaf, ws, [0, 9, 0, 9]])
+    for src in _tensor_sources():
+        n = 1
+        t = src
+        while t[0] != 0:
+            t = t[1]
+        for d in t[1]:
+            n *= d[1]
+        D = len(t[1])
+        for kind in (0, 1, 2, 3):
+            for wi in (0, 1):
+                yield sx([10, 10, 2, kind, wi, src, n + 3])
+        yield sx([10, 10, 7, [[0, 0], [0, 0]], 2, 3, 0, src, 0])
+        for variables in (0, 1):
+            for ranges in ([[0, 9]] * D, [[0, 1]] * D, [[0, 0]] * D, [[9, 1]] * D):
+                yield sx([10, 12, variables, src, ranges])
+                if D == 0:
+                    break
+    # the bare index iterator over shapes with zero lengths / no dimensions
+    for lens in ([], [0], [1], [0, 2], [2, 0], [0, 0], [1, 1], [1, 0, 1], [3, 1]):
+        yield sx([10, 10, 1, [[d, x] for d, x in enumerate(lens)], 9])
+
+
 def gen(tier, rng):
     for c in own_cases(tier, rng):
         yield c
@@ -357,6 +502,9 @@ def gen(tier, rng):
             yield c
     # wave 2 (kept LAST so that the random stream of everything above is unchanged)
     for c in dict.fromkeys(nested_walks(tier, rng)):
+        yield c
+    # wave 4 (deterministic, draws nothing from rng)
+    for c in dict.fromkeys(iterator_ctor_cases(tier, rng)):
         yield c
 
 
